@@ -1,13 +1,14 @@
 """C10 -- whatever the repository editor signs and writes, the client loads back unchanged (Editor.tla)."""
 import json, os
 import vlib
+import lifecyclelib
 from vlib import tlc, make_cfg, vh, workdir, write_ndjson, read_ndjson, Verdict, log
 
 PID = "C10"
 
 
-def model(w, maxops, checked, invs, tag, names='{"t1", "t2"}'):
-    cfg = make_cfg("MC_Editor.cfg", {"MaxOps": maxops, "ThresholdChecked": checked, "Names": names}, os.path.join(w, f"{tag}.cfg"), invariants=invs)
+def model(w, maxops, checked, invs, tag, names='{"t1", "t2"}', probe="FALSE"):
+    cfg = make_cfg("MC_Editor.cfg", {"MaxOps": maxops, "ThresholdChecked": checked, "Names": names, "ProbeRefusals": probe}, os.path.join(w, f"{tag}.cfg"), invariants=invs)
     return tlc("Editor", cfg, f"c10-{tag}", workers=10, timeout=1700)
 
 
@@ -17,6 +18,8 @@ def judge(v, rows, stats):
         p, o = r["p"], r["obs"]
         stats["evaluations"] += 1
         ops = [x["op"] for x in p["ops"]]
+        if p.get("probe"):
+            stats["probes"] = stats.get("probes", 0) + 1
         if "delegate_role" in ops or "change_delegated_targets" in ops:
             stats["nontrivial"].add(json.dumps(p["ops"], sort_keys=True))
         bad = None
@@ -60,10 +63,12 @@ def run(tier, seed):
     mc = model(w, 5 if tier == "thorough" else 4, "TRUE", ["SignedLoads"], "check")
     if not mc.ok:
         raise vlib.ToolError("Editor.tla violates SignedLoads:\n" + mc.violation[-2500:])
-    gen = model(w, 4, "FALSE", ["Emit"], "gen")
-    progs = gen.replays
+    gen = model(w, 4, "FALSE", ["Emit"], "gen", probe="TRUE")
     stride = 1 if tier == "thorough" else 12
-    progs = progs[seed % stride::stride]
+    probes = [p for p in gen.replays if p.get("probe")]
+    progs = [p for p in gen.replays if not p.get("probe")][seed % stride::stride]
+    # signing attempts with some but too few of a role's keys: all of them in the thorough tier, one in three otherwise
+    progs += probes if tier == "thorough" else probes[seed % 3::3]
     pp = os.path.join(w, "progs.ndjson")
     write_ndjson(pp, progs)
     out = os.path.join(w, "out.ndjson")
@@ -107,12 +112,15 @@ def run(tier, seed):
     cov = {"states": mc.distinct + xg.distinct, "transitions": mc.generated + xg.generated, "traces_validated_against_impl": stats["evaluations"],
            "samples": samples, "evaluations": stats["evaluations"], "distinct_nontrivial": len(stats["nontrivial"]),
            "rule": "programs = every sequence of up to 4 accepted editor operations ending in RepositoryEditor::sign, from Editor.tla with the threshold check switched off in the generator (so that programs the editor must refuse are tried too): add/remove target, version bumps, delegate_role (from targets or from d1; 1-2 keys, threshold 1-2, every path set over the names), sign_targets_editor and sign with adequate and inadequate key sets, change_delegated_targets; names with a space, a non-ASCII character and sub-directories, sizes 0..32 KiB, copy and symlink publication, both consistent_snapshot settings; each is run through the real editor, written, loaded back over an HTTP-like transport and over file:// URLs, every target downloaded; non-trivial = the program delegates or edits a delegated role",
-           "programs_refused_by_editor": stats.get("refused", 0), "exhaustive": tier == "thorough"}
+           "programs_refused_by_editor": stats.get("refused", 0), "signing_attempts_with_too_few_keys": stats.get("probes", 0), "exhaustive": tier == "thorough"}
+    cov.update(lifecyclelib.run_into(v, PID, tier, seed))
     return v.finish("model_checking", cov, ["TLC; signatures abstracted to signer sets; the cross-party flow is EditorX.tla: every combination of threshold, current and incoming version and signer set (authorized / foreign keys, one key signing twice), each run through update_delegated_targets, sign, write and load",
                                             "F14 (FilesystemTransport does not percent-decode target names) is a recorded finding"])
 
 
 def replay(path, seed):
+    if json.load(open(path))["replay"].get("lifecycle"):
+        return lifecyclelib.replay(path, PID, seed)
     rp = json.load(open(path))["replay"]
     w = workdir("c10")
     pp = os.path.join(w, "replay.ndjson")
